@@ -20,11 +20,13 @@ import (
 //	    -> {"errs":[class...],"carry","dump","rewrite":{"err","bytes"}}
 //
 // "dump" is the JSON value form of Dump with one addition: a struct whose pointer type has the method
-// CarryingUnknownFields gets a leading pseudo-slot [32768, <what the method returned>]. Only the
-// public method is used; the private buffer is never looked at (its content shows in the re-written
-// bytes).
+// CarryingUnknownFields gets a leading pseudo-slot [32768, <what the method returned>], and every struct
+// reached through a pointer gets the pseudo-slot [32769, {"s":[[id, IsSet<Field>()] ...]}] (the fields that
+// have such a method, Go declaration order). Only public methods are used; the private buffer is never
+// looked at (its content shows in the re-written bytes).
 
 const unkSlot = 32768
+const issetSlot = 32769
 
 // DumpK prints like Dump and adds the CarryingUnknownFields pseudo-slot.
 func DumpK(rv reflect.Value) string {
@@ -109,6 +111,21 @@ func dumpStructK(b *strings.Builder, sv reflect.Value, ptr reflect.Value) {
 			fmt.Fprintf(b, "[%d,%v]", unkSlot, c)
 			n++
 		}
+	}
+	// what the public IsSet<Field>() methods answer on this very object (nested ones included)
+	if ptr.IsValid() {
+		var is []string
+		for _, f := range ThriftFields(sv.Type()) {
+			m := ptr.MethodByName("IsSet" + f.Go)
+			if m.IsValid() && m.Type().NumIn() == 0 && m.Type().NumOut() == 1 && m.Type().Out(0).Kind() == reflect.Bool {
+				is = append(is, fmt.Sprintf("[%d,%v]", f.ID, m.Call(nil)[0].Bool()))
+			}
+		}
+		if n > 0 {
+			b.WriteString(",")
+		}
+		n++
+		fmt.Fprintf(b, `[%d,{"s":[%s]}]`, issetSlot, strings.Join(is, ","))
 	}
 	for _, f := range ThriftFields(sv.Type()) {
 		if n > 0 {
